@@ -98,6 +98,44 @@ def _get_at(lit, path):
     return lit
 
 
+def _reaching_ops(doc, owner):
+    """Indices (among doc.operations()) of the operations whose selections reach `owner` (an
+    Operation or a Fragment) directly or through fragment spreads."""
+    frs = doc.fragments()
+
+    def spreads(sels, acc):
+        for s in sels:
+            if s.kind == "spread":
+                acc.add(s.name)
+            elif s.kind == "inline" or (s.kind == "field" and s.sels):
+                spreads(s.sels, acc)
+        return acc
+
+    out = []
+    for oi, op in enumerate(doc.operations()):
+        if op is owner:
+            out.append(oi)
+            continue
+        seen, stack = set(), list(spreads(op.sels, set()))
+        while stack:
+            n = stack.pop()
+            if n in seen or n not in frs:
+                continue
+            seen.add(n)
+            stack.extend(spreads(frs[n].sels, set()))
+        if owner.kind == "fragment" and owner.name in seen:
+            out.append(oi)
+    return out
+
+
+def _incompatible_var_type(schema, ty):
+    """An input type no value of which may flow into a position of type ty."""
+    inner = ty[1] if is_nn(ty) else ty
+    if inner[0] == "L":
+        return N("Boolean")  # a non-list variable in a list position
+    return L(N("Boolean")) if inner[1] == "Boolean" else (N("Boolean") if inner[1] != "Boolean" else N("Int"))
+
+
 def enumerate_rewrites(schema, doc):
     rw = []
     nodes = walk(schema, doc)
@@ -162,8 +200,16 @@ def enumerate_rewrites(schema, doc):
                                     return _replace_at(v, vpath, ("obj", list(o[1]) + [o[1][0]]))
                                 n.args = [(a, dup(v) if a == an else v) for a, v in n.args]
                             add("unique-input-field", site + "/nested-value", dup_field)
-                        inner = vty[1] if is_nn(vty) else vty
-                        if inner[0] == "N" and not vpath == () or True:
+                        reach = _reaching_ops(doc, owner)
+                        if reach:
+                            def wrong_var(d2, idx=idx, an=an, vpath=vpath, vty=vty, reach=reach):
+                                n = node_at(d2, idx)[0]
+                                n.args = [(a, _replace_at(v, vpath, ("var", "wrongTypedVar")) if a == an else v) for a, v in n.args]
+                                bad = _incompatible_var_type(schema, vty)
+                                for oi in reach:
+                                    d2.operations()[oi].vardefs.append(("wrongTypedVar", bad, ABSENT))
+                            add("variable-allowed-in-position", site + ("/nested-value" if vpath else "/argument"), wrong_var)
+                        if True:
                             # variable of the wrong type / undefined variable in this position
                             def undef_var(d2, idx=idx, an=an, vpath=vpath):
                                 n = node_at(d2, idx)[0]
